@@ -162,3 +162,22 @@ Proof.
           (conj (proj1 ex_run_accepted) (conj (proj1 (proj2 ex_run_accepted)) ex_run_bad_flagged)))).
 Qed.
 Print Assumptions C01_layer2_nonvacuous.
+
+(* the only clause of the abstract rules that the real code was seen to leave (cert-voter next-votes bottom
+   after a cert threshold for ANOTHER value of the same period overwrote its staging value) is left only
+   when QI_same is already false: under QI_same the exception "a cert quorum for y' <> y exists in the period"
+   is vacuous for an honest cert-voter, so relaxing R_next by it does not change the reachable traces that
+   ba_safety talks about (proofs/C01RelaxProofs.v) *)
+From Verif.proofs Require Import C01RelaxProofs.
+Theorem C01_next_rule_relaxation_vacuous :
+  forall (node value : Type)
+         (node_eq_dec : forall a b : node, {a = b} + {a <> b})
+         (value_eq_dec : forall a b : value, {a = b} + {a <> b})
+         (honest : node -> Prop) (quorum : nat -> nat -> (node -> Prop) -> Prop),
+    (forall p s Q1 Q2, quorum p s Q1 -> quorum p s Q2 -> exists n, honest n /\ Q1 n /\ Q2 n) ->
+    forall t h q y y',
+      reachable node value node_eq_dec value_eq_dec honest quorum t -> honest h ->
+      voted node value t (mkVote node value h q 2%nat (Some y)) ->
+      has_q node value quorum t q 2%nat (Some y') -> y' = y.
+Proof. exact cert_voter_exception_vacuous. Qed.
+Print Assumptions C01_next_rule_relaxation_vacuous.
